@@ -67,6 +67,10 @@ pub enum Case {
         perturb: u8,
         perturb_seed: u32,
         cancel: Cancel,
+        /// cancellation is requested 1 + this many times (through clones of
+        /// the token): a token that has been set stays set
+        #[serde(default)]
+        extra_cancels: u8,
     },
     Share {
         dag: DagSpec,
@@ -92,6 +96,7 @@ struct HookState {
     threads: Mutex<HashSet<std::thread::ThreadId>>,
     fired: AtomicBool,
     cancel_at: usize, // 0 = never
+    extra_cancels: u8,
     perturb: u8,
     seed: u32,
 }
@@ -123,6 +128,9 @@ fn install(state: Arc<HookState>) {
         if state.cancel_at != 0 && k == state.cancel_at {
             state.fired.store(true, Ordering::SeqCst);
             t.cancel();
+            for _ in 0..state.extra_cancels {
+                t.clone().cancel();
+            }
         }
     })));
 }
@@ -290,6 +298,7 @@ fn run_case<F: MathFunction + RenderHints + Clone>(
     perturb: u8,
     perturb_seed: u32,
     cancel: &Cancel,
+    extra_cancels: u8,
     case: &Case,
     cx: &mut Cx,
 ) -> CheckResult {
@@ -299,6 +308,7 @@ fn run_case<F: MathFunction + RenderHints + Clone>(
         threads: Mutex::new(HashSet::new()),
         fired: AtomicBool::new(false),
         cancel_at: 0,
+        extra_cancels: 0,
         perturb: 0,
         seed: 0,
     });
@@ -329,12 +339,22 @@ fn run_case<F: MathFunction + RenderHints + Clone>(
         threads: Mutex::new(HashSet::new()),
         fired: AtomicBool::new(false),
         cancel_at,
+        extra_cancels,
         perturb,
         seed: perturb_seed,
     });
     install(st.clone());
     if matches!(cancel, Cancel::BeforeStart) {
         token.cancel();
+        for _ in 0..extra_cancels {
+            token.clone().cancel();
+        }
+        ensure!(
+            token.is_cancelled(),
+            "token-not-set-after-cancel",
+            "is_cancelled() is false after {} cancel() call(s)",
+            1 + extra_cancels
+        );
     }
     let killer = if let Cancel::Async(us) = cancel {
         let t = token.clone();
@@ -342,6 +362,9 @@ fn run_case<F: MathFunction + RenderHints + Clone>(
         Some(std::thread::spawn(move || {
             std::thread::sleep(std::time::Duration::from_micros(us));
             t.cancel();
+            for _ in 0..extra_cancels {
+                t.clone().cancel();
+            }
         }))
     } else {
         None
@@ -378,6 +401,7 @@ fn run_case<F: MathFunction + RenderHints + Clone>(
         }
         Cancel::BeforeStart => {
             cx.ev.count("cancel_before_start");
+            cx.ev.count(&format!("cancel_requests_{}", 1 + extra_cancels));
             ensure!(
                 got.is_none(),
                 "result-despite-cancel",
@@ -387,6 +411,7 @@ fn run_case<F: MathFunction + RenderHints + Clone>(
         Cancel::AtPoll(_) => {
             if fired {
                 cx.ev.count("cancel_at_poll_fired");
+                cx.ev.count(&format!("cancel_requests_{}", 1 + extra_cancels));
                 ensure!(
                     got.is_none(),
                     "partial-result-after-cancel",
@@ -586,14 +611,15 @@ impl Prop for P {
             3 => (0u16..=1100).prop_map(Cancel::AtPoll),
             2 => (0u32..3000).prop_map(Cancel::Async),
         ];
-        let run = (work, any::<bool>(), prop_oneof![1 => Just(0u8), 6 => 1u8..=16], 0u8..=2, any::<u32>(), cancel).prop_map(
-            |(work, jit, pool, perturb, perturb_seed, cancel)| Case::Run {
+        let run = (work, any::<bool>(), prop_oneof![1 => Just(0u8), 6 => 1u8..=16], 0u8..=2, any::<u32>(), cancel, prop_oneof![3 => Just(0u8), 2 => Just(1u8), 1 => 2u8..=4]).prop_map(
+            |(work, jit, pool, perturb, perturb_seed, cancel, extra_cancels)| Case::Run {
                 work,
                 jit,
                 pool,
                 perturb,
                 perturb_seed,
                 cancel,
+                extra_cancels,
             },
         );
         let mut p = gens::DagParams::all(tier.pick(40, 100));
@@ -622,6 +648,7 @@ impl Prop for P {
                 perturb,
                 perturb_seed,
                 cancel,
+                extra_cancels,
             } => {
                 cx.ev.count(match work {
                     Work::Render2 { .. } => "work_render2d",
@@ -630,9 +657,9 @@ impl Prop for P {
                 });
                 cx.ev.count(&format!("pool_{pool}"));
                 if *jit {
-                    run_case::<JitFunction>(work, *pool, *perturb, *perturb_seed, cancel, case, cx)
+                    run_case::<JitFunction>(work, *pool, *perturb, *perturb_seed, cancel, *extra_cancels, case, cx)
                 } else {
-                    run_case::<VmFunction>(work, *pool, *perturb, *perturb_seed, cancel, case, cx)
+                    run_case::<VmFunction>(work, *pool, *perturb, *perturb_seed, cancel, *extra_cancels, case, cx)
                 }
             }
             Case::Share {
